@@ -86,6 +86,14 @@ var shapeCatalogue = [][2]string{
 	// one TYPE included by two tables that refer to each other through it: no cycle (C16-F5b)
 	{"ok-field-set-shared-by-referenced-tables", "APPLICATION app1();\nWORKSPACE W (\n  TYPE T (x ref(B));\n  TYPE T2 (y ref(C));\n  TABLE B INHERITS sys.CDoc (T2);\n  TABLE C INHERITS sys.CDoc (T2);\n);\n"},
 	{"ok-field-set-shared-by-referenced-tables-2", "APPLICATION app1();\nWORKSPACE W (\n  TYPE T2 (y ref(C));\n  TYPE T (x ref(B));\n  TABLE B INHERITS sys.CDoc (T2);\n  TABLE C INHERITS sys.CDoc (T2);\n);\n"},
+	// well-formed programs the compiler refused (C17-F34..F37): controls, must compile and build
+	{"ok-unique-over-inherited-field", "APPLICATION app1();\nWORKSPACE W (\n  ABSTRACT TABLE base INHERITS sys.CDoc (b1 int32);\n  TABLE t1 INHERITS base (f2 int32, UNIQUE (b1, f2));\n);\n"},
+	{"ok-unique-over-first-field-set", "APPLICATION app1();\nWORKSPACE W (\n  TYPE fs1 (f1 int32);\n  TYPE fs2 (g1 int32);\n  TABLE A INHERITS sys.CDoc (fs1, fs2, UNIQUE (f1));\n);\n"},
+	{"ok-uniquefield-in-first-field-set", "APPLICATION app1();\nWORKSPACE W (\n  TYPE fs1 (f1 int32);\n  TYPE fs2 (g1 int32);\n  TABLE A INHERITS sys.CDoc (fs1, fs2, UNIQUEFIELD f1);\n);\n"},
+	{"ok-grant-column-from-field-set", "APPLICATION app1();\nWORKSPACE W (\n  ROLE r;\n  TYPE fs (f1 int32);\n  TABLE t1 INHERITS sys.CDoc (fs, f2 int32);\n  GRANT SELECT(f1) ON TABLE t1 TO r;\n);\n"},
+	{"ok-field-of-nested-table-declared-later", "APPLICATION app1();\nWORKSPACE W (\n  TABLE doc2 INHERITS sys.CDoc (again sub);\n  TABLE doc INHERITS sys.CDoc (a int32, items TABLE item (b int32, subs TABLE sub (c int32)));\n);\n"},
+	{"ok-field-of-nested-table-declared-earlier", "APPLICATION app1();\nWORKSPACE W (\n  TABLE doc INHERITS sys.CDoc (a int32, items TABLE item (b int32, subs TABLE sub (c int32)));\n  TABLE doc2 INHERITS sys.CDoc (again sub);\n);\n"},
+	{"ok-ref-to-table-declared-in-descriptor", "APPLICATION app1();\nWORKSPACE W (\n  DESCRIPTOR wd (a int32, items TABLE x (b int32));\n  TABLE t INHERITS sys.CDoc (r ref(x));\n);\n"},
 	{"empty-file", ""},
 	{"only-comment", "-- nothing here\n"},
 }
@@ -122,6 +130,16 @@ var multiShapes = map[string][]c17.PkgText{
 	"ok-import-alias-param-by-alias": {
 		{Path: "github.com/verif/app1", Files: []string{"IMPORT SCHEMA 'github.com/verif/pkg1' AS p1;\nAPPLICATION app1( USE p1; );\nWORKSPACE W INHERITS p1.AW (\n  EXTENSION ENGINE BUILTIN ( COMMAND c(p1.T) RETURNS p1.T; );\n);\n"}},
 		{Path: "github.com/verif/pkg1", Files: []string{"ABSTRACT WORKSPACE AW ( TYPE T (a int32); );\n"}}},
+	// two packages with the same base name, one imported under an alias: `pkg1` is the one without alias,
+	// whatever the order of the IMPORT lines (C17-F38)
+	"ok-aliased-import-same-base-name": {
+		{Path: "github.com/verif/app1", Files: []string{"IMPORT SCHEMA 'github.com/verif/b/pkg1' AS other;\nIMPORT SCHEMA 'github.com/verif/a/pkg1';\nAPPLICATION app1( USE other; USE pkg1; );\nWORKSPACE W INHERITS pkg1.AW, other.BW (\n  TABLE t INHERITS sys.CDoc (r ref(pkg1.T), r2 ref(other.T));\n);\n"}},
+		{Path: "github.com/verif/a/pkg1", Files: []string{"ABSTRACT WORKSPACE AW ( TABLE T INHERITS sys.CDoc (a int32); );\n"}},
+		{Path: "github.com/verif/b/pkg1", Files: []string{"ABSTRACT WORKSPACE BW ( TABLE T INHERITS sys.CDoc (b int32); );\n"}}},
+	// a projector of one package on a table declared in place in another, which INHERITS an abstract table (C17-F39)
+	"ok-projector-on-inherited-nested-table-of-another-package": {
+		{Path: "github.com/verif/app1", Files: []string{"IMPORT SCHEMA 'github.com/verif/pkg1';\nAPPLICATION app1( USE pkg1; );\nWORKSPACE W INHERITS pkg1.Base (\n  EXTENSION ENGINE BUILTIN ( PROJECTOR p AFTER INSERT ON pkg1.N; );\n);\n"}},
+		{Path: "github.com/verif/pkg1", Files: []string{"ABSTRACT WORKSPACE Base (\n  ABSTRACT TABLE AR INHERITS sys.CRecord (a int32);\n  TABLE D INHERITS sys.CDoc (items TABLE N INHERITS AR (x int32));\n);\n"}}},
 	// three packages alter one workspace; one TYPE is included by two tables that refer to each other through
 	// it - which package is built first decided between success and a false "circular reference" (C16-F5b)
 	"ok-field-set-shared-across-packages": {
